@@ -223,7 +223,9 @@ def check_C05(tier, seed, replay=None):
     cfg = F.RandCfg(depth=4, maxrules=3, state=True, cloner=True, gstore=True, preds=True)
     groups += F.random_groups(seed, nrand, cfg, gi0=len(groups) + 1)
     inputs = F.all_inputs([F.A, F.B], maxlen)
-    options = [opt(), opt(maxexpr=3000), opt(initx=2, initg=3), opt(initx=1, initg=1, maxexpr=3000), opt(debug=True)]    # InitState / GlobalStore options; Debug for T2
+    # the budget of the diverging members is small: every event carries the store its block saw, and a store that grows with
+    # every iteration (Cloner append) makes an observation quadratic in the budget (9 MB per parse at 3000)
+    options = [opt(), opt(maxexpr=200), opt(initx=2, initg=3), opt(initx=1, initg=1, maxexpr=200), opt(debug=True)]    # InitState / GlobalStore options; Debug for T2
     run.keep_debug = True
     nin = len(inputs)
     lrin = add_lr(groups, inputs, 60 if tier == "quick" else 400, seed)     # state blocks inside left-recursive growth
@@ -1751,6 +1753,10 @@ def check_C09(tier, seed, replay=None):
     pairs = [(d_["2"], d_["0"]) for d_ in byname.values() if "2" in d_ and "0" in d_]
     d2, npairs = pairwise(run, pairs, fields=("status", "ok", "end", "nval"))
     div += d2
+    # the optimizer alone: its real output judged by PegRef, and every order of the rewrites of Optimize.tla
+    import optdesign
+    for (pth, what) in optdesign.check(run, seed, tier):
+        run.violation(pth, what)
     return std_finish(run, div, tot, "grammars with leaf rules referenced from several places, nested choices/sequences, adjacent literals and classes in all combinations of i and ^, predicates, actions with labels (+ random throw/recover grammars) x all inputs over {a,b,A,c} x a random subset of rules as -alternate-entrypoints (each protected rule entered directly); the -optimize-grammar parser's traces are validated against PegRef applied to the UNOPTIMISED grammar (acceptance, end offset, action events with text/pos/normalised labels, normalised value) and against the unoptimised parser",
                       level="translation_validation", extra=dict(programs=len(run.variants), disagreements_checked=npairs + tot["n"], pairs_compared=npairs))
 
